@@ -54,6 +54,27 @@ Definition accept_offers (c : accept_cfg) (s : stream) : bool :=
   else if nonempty cfg_remotes then mem (s_remote s) cfg_remotes
   else true.
 
+(* stream/api/accept NewController: every entry of remote_peer_ids goes through
+   peer.IDB58Decode (decode_peer: None = error; the empty/blank string is an error);
+   the first failure makes construction fail.  Nothing is dropped. *)
+Fixpoint accept_parse_remotes (decode_peer : bytes -> option bytes) (l : list bytes) : outcome (list bytes) :=
+  match l with
+  | [] => Ok []
+  | x :: l' =>
+      match decode_peer x with
+      | None => Err 1%nat
+      | Some p => r <- accept_parse_remotes decode_peer l' ;; Ok (p :: r)
+      end
+  end.
+
+(* construction + decision from the RAW configuration: 0 declined, 1 offered, 2 construction fails *)
+Definition accept_from_config (decode_peer : bytes -> option bytes)
+           (cfg_proto cfg_local : bytes) (remote_strs : list bytes) (s : stream) : nat :=
+  match accept_parse_remotes decode_peer remote_strs with
+  | Ok rs => if accept_offers (AcceptCfg cfg_proto cfg_local rs) s then 1%nat else 0%nat
+  | _ => 2%nat
+  end.
+
 (* stream/srpc/server: list of protocol ids; the peer filter is a list of
    *strings* compared with String() of the stream's local peer id, which the
    case carries as local_str. *)
